@@ -45,6 +45,18 @@ def episodes(prop, seed, n, full, outputs, n_inst, budget=70):
         eps.append({"gid": name, "schema_text": text, "pats": pats, "vocab": vocab_choice(rng), "outputs": outputs,
                     "budget": budget, "seed": rng.randrange(1 << 30), "instances": insts,
                     "hints": rel.hints_for(g) + [list(json.dumps(k).encode()) for k in khints], "slices": rng.choice([[], "default"])})
+    if prop == "C07":
+        # integers in narrow windows with fractional / exclusive bounds of either sign (jsgen.tight_integer_family): every
+        # integer in and next to the window is offered, so a bound that is off by one is a wrongly refused instance
+        import math
+        fam = jsgen.tight_integer_family()
+        for name, schema in (rng.sample(fam, 60) if n < 1000 else fam):
+            ns = schema["properties"]["n"]
+            lo = ns.get("minimum", ns.get("exclusiveMinimum"))
+            hi = ns.get("maximum", ns.get("exclusiveMaximum"))
+            insts = [{"text": '{"n":%d}' % k} for k in range(math.floor(lo) - 1, math.ceil(hi) + 2)]
+            eps.append({"gid": name, "schema_text": json.dumps(schema), "pats": [], "vocab": vocab_choice(rng), "outputs": 1,
+                        "budget": budget, "seed": rng.randrange(1 << 30), "instances": insts, "hints": [], "slices": []})
     return eps
 
 
